@@ -197,6 +197,31 @@ def case_decode(item):
     return item, bad
 
 
+def case_pair(item):
+    """two forms of one new mnemonic with the same operand count in one file: both are emitted"""
+    isa, kind, c1, c2 = item
+    names = ["twice-%s" % "_".join(c1), "twice-%s" % "_".join(c2)]
+    if kind == "ibench":
+        text = "Using frequency 2.50GHz.\n" + "".join(
+            "%s-TP: 0.501 (clock cycles)  [DEBUG - result: 1.0]\n%s-LT:   4.01 (clock cycles)  "
+            "[DEBUG - result: 1.0]\n" % (n, n) for n in names)
+    else:
+        text = "".join("%s\nLatency: 4.01 cy\nThroughput: 0.501 cy\n\n" % n for n in names)
+    try:
+        forms, w = run_import(isa, kind, text)
+    except Exception:
+        return item, [("exception", traceback.format_exc()[-900:])]
+    bad = []
+    for cs in (c1, c2):
+        ops = [decode(isa, c) for c in cs]
+        hits = [f for f in _find(forms, "twice", ops) if "mnemonic" in f]
+        if len(hits) != 1:
+            bad.append(("form-missing", "forms twice-%s and twice-%s imported together: %d emitted "
+                        "forms carry the operands of twice-%s"
+                        % ("_".join(c1), "_".join(c2), len(hits), "_".join(cs))))
+    return item, bad
+
+
 def case_measure(item):
     isa, kind, tp, lt, order = item
     name = "fresh-r_r" if isa == "x86" else "fresh-x_x"
@@ -275,9 +300,10 @@ def case_blocks(item):
                             "malformed one is not emitted correctly (%r)"
                             % (list(kinds), k, [(h.get("latency"), h.get("throughput"))
                                                 for h in hits])))
-        elif k > stop and hits:
-            bad.append(("block-after-stop", "blocks %r: block %d after the malformed block %d was "
-                        "imported" % (list(kinds), k, stop)))
+        elif k >= stop and hits:
+            bad.append(("block-after-stop", "blocks %r: block %d %s was imported"
+                        % (list(kinds), k, "is malformed itself (the import stops at it) but"
+                           if k == stop else "after the malformed block %d" % stop)))
     return item, bad
 
 
@@ -327,8 +353,17 @@ def run(ctx):
     # (3) asmbench block structure
     bitems = [(isa, t) for isa in ("x86", "aarch64") for L in (1, 2, 3)
               for t in itertools.product(BLOCK_KINDS, repeat=L)]
+    # (4) two forms of one new mnemonic and arity in one file
+    pitems = []
+    for isa in ("x86", "aarch64"):
+        cs = codes(isa)
+        red = cs[::max(1, len(cs) // 6)]
+        for kind in ("ibench", "asmbench"):
+            for a, b in itertools.permutations(red, 2):
+                pitems.append((isa, kind, (a,), (b,)))
+                pitems.append((isa, kind, (a, red[0]), (b, red[0])))
     for fn, items, part in ((case_decode, ditems, "decode"), (case_measure, mitems, "measure"),
-                            (case_blocks, bitems, "blocks")):
+                            (case_blocks, bitems, "blocks"), (case_pair, pitems, "pairs")):
         out = core.pmap(fn, core.rotate(items, ctx.seed))
         for item, bad in out:
             res.states += 1
@@ -369,7 +404,8 @@ def replay(ctx, payload):
     r = payload["replay"]
     item = r["item"]
     item = tuple(tuple(x) if isinstance(x, list) else x for x in item)
-    fn = {"decode": case_decode, "measure": case_measure, "blocks": case_blocks}[r["part"]]
+    fn = {"decode": case_decode, "measure": case_measure, "blocks": case_blocks,
+          "pairs": case_pair}[r["part"]]
     _, bad = fn(item)
     for b in bad:
         print(b)
